@@ -29,7 +29,14 @@ def replay_aes(prop, r, fs, seed, work):
     return rc == 1, out
 
 
-DRIVERS = [('aes_', replay_aes)]
+def replay_hash(prop, r, fs, seed, work):
+    big = ['big'] if any('loop_invariant' in (f['id'] or '') or 'postcondition.2' in (f['id'] or '') for f in fs) or 'getStringHash' in r['name'] else []
+    rc, out = native('hash_replay.cpp', ['kernel/hash/sha1.cpp', 'kernel/hash/md5.cpp', 'kernel/hash/sha256.cpp', 'kernel/hash/hashmaster.cpp',
+                                          'kernel/hash/hashbuffer.cpp'], [seed, 300] + big, work, timeout=900)
+    return rc == 1, out
+
+
+DRIVERS = [('aes_', replay_aes), ('sha', replay_hash), ('md5', replay_hash), ('hashmaster_', replay_hash), ('filebuffer', replay_hash)]
 
 
 def make(prop, r, fs, meta, seed, work):
